@@ -223,5 +223,5 @@ def CANDIDATES(func: str):
         for sel in itertools.product(range(3), range(3), range(3), range(3), range(5), range(4), range(2)):
             yield [list(sel) + [0] * 3]
     else:
-        for sel in itertools.product(range(3), range(15), range(13), range(3), [1]):
+        for sel in itertools.product(range(3), range(15), range(14), range(3), [1]):
             yield [list(sel) + [0] * 5]
